@@ -60,19 +60,24 @@ SplitAlgo(mk) == Loop(mk, 1, 1, <<>>)
 (* ---- segmentation ----------------------------------------------------------------- *)
 AND == "and"
 OR == "or"
-Exceeds(v, t) == v # NaNv /\ v > t
+\* infinite values are ordinary values of the order: +inf (PInf) exceeds every threshold, -inf (NInf) exceeds none; only NaN
+\* is left out of the comparison
+PInf == 98
+NInf == 97
+Gt(v, t) == v # NInf /\ (v = PInf \/ v > t)
+Exceeds(v, t) == v # NaNv /\ Gt(v, t)
 Tested(vals) == {j \in DOMAIN vals : vals[j] # NaNv}
 \* set of admissible marker values
 Marker(vals, th, md) ==
-   IF md = AND THEN {IF \E j \in Tested(vals) : vals[j] > th[j] THEN 1 ELSE 0}
+   IF md = AND THEN {IF \E j \in Tested(vals) : Gt(vals[j], th[j]) THEN 1 ELSE 0}
    ELSE IF Tested(vals) = {} THEN {0, 1}
-   ELSE {IF \A j \in Tested(vals) : vals[j] > th[j] THEN 1 ELSE 0}
+   ELSE {IF \A j \in Tested(vals) : Gt(vals[j], th[j]) THEN 1 ELSE 0}
 RECURSIVE CompLoop(_, _, _, _, _)
 CompLoop(vals, th, md, j, comp) ==
    IF j > Len(vals) THEN comp
    ELSE IF vals[j] = NaNv THEN CompLoop(vals, th, md, j + 1, comp)
-   ELSE IF md = AND THEN CompLoop(vals, th, md, j + 1, comp /\ vals[j] <= th[j])
-   ELSE CompLoop(vals, th, md, j + 1, comp \/ vals[j] <= th[j])
+   ELSE IF md = AND THEN CompLoop(vals, th, md, j + 1, comp /\ ~Gt(vals[j], th[j]))
+   ELSE CompLoop(vals, th, md, j + 1, comp \/ ~Gt(vals[j], th[j]))
 SegAlgo(vals, th, md) == IF CompLoop(vals, th, md, 1, md = AND) THEN 0 ELSE 1
 
 (* ---- design checks ------------------------------------------------------------------- *)
